@@ -85,4 +85,21 @@ theorem dedup_rows_whole (ω : Oracle) (h : FmtInj ω) {f : Frame} {n : Nat} (hs
     obtain ⟨cs, kp, rfl⟩ := DedupRows.dedupSpec_some he
     exact DedupRows.ofRows_rows_whole hs _ (DedupRows.dedupRows_subset _ _ _)
 
+/-- the surviving rows are a SUBLIST of the receiver's rows: kept rows keep their original relative order, and no row is
+invented or repeated beyond its own occurrences -/
+theorem dedupRows_sublist (cs : List Str) (keep : Frame.Keep) (rows : List Row) :
+    (Spec.dedupRows cs keep rows).Sublist rows := by
+  unfold Spec.dedupRows
+  have h : ∀ p : Row × Nat → Bool, ((rows.zipIdx.filter p).map (·.1)).Sublist rows := by
+    intro p
+    have h1 : ((rows.zipIdx.filter p).map (·.1)).Sublist (rows.zipIdx.map (·.1)) :=
+      List.Sublist.map _ List.filter_sublist
+    rwa [List.zipIdx_map_fst] at h1
+  exact h _
+
+/-- so de-duplication never makes a frame taller -/
+theorem dedupRows_length_le (cs : List Str) (keep : Frame.Keep) (rows : List Row) :
+    (Spec.dedupRows cs keep rows).length ≤ rows.length :=
+  (dedupRows_sublist cs keep rows).length_le
+
 end Goframe.C07
